@@ -4,6 +4,27 @@ import json, os
 ROOT = os.path.dirname(os.path.abspath(__file__))
 
 CLAIMED = {
+ 'C05': dict(
+    category='exploration',
+    text='Bounded exploration driven by the solver: CrossHair enumerates the (program, action home) indices of a fixed corpus (27 hand-written name-resolved '
+         'bodies covering the supported statement set, each in every compatible home: function, instance operation, class operation, bridge, derived attribute; plus '
+         'the 26 real bodies of the fixture model) and executes the real prebuild_action and gen_text_action on each; parse(text) and parse(gen(prebuild(text))) are '
+         'compared STRICTLY (node class, every scalar field, child count and order; only keyword letter case and the bridge/transform/send spellings of one implicit '
+         'invocation are normalised), and translating the generated text again in a fresh model must give the same text. No program data is symbolic-through '
+         '(names and literals must pass the OAL lexer), so this is exhaustive over the corpus, not over all programs.',
+    design_ref='DESIGN.md section 5, C05',
+    note='corpus-bounded; fixture fixtures/interp_model.xtuml; text parsed by PLY outside the tracer. Known finding: a constant referenced by its bare name is '
+         'regenerated with its constant-specification prefix.',
+    technique='solver-enumerated bounded execution of the real code (CrossHair + z3) with a strict syntax-tree oracle'),
+ 'C06': dict(
+    category='exploration',
+    text='Same corpus and runs as C05; after prebuild_action the instances it created are checked by an independent oracle: no new multiplicity/uniqueness violation '
+         'in the model, exactly one R603 subtype per statement and one R801 subtype per value, per block the R661 chain and the persisted Previous_Statement_ID equal '
+         'source order with none at the ends, R816 / Next_Value_ID parameter chains and R604 / Next_Link_ID navigation chains in source order, statements positioned at '
+         'the first column of their text, every variable in a block, and typing of literals, comparison/boolean/unary operators, attribute reads and instance (set) references.',
+    design_ref='DESIGN.md section 5, C06',
+    note='corpus-bounded; not checked: positions of values, declaring block of a variable, types of transients and parameters.',
+    technique='solver-enumerated bounded execution of the real code (CrossHair + z3) with an independent well-formedness oracle'),
  'C14': dict(
     category='other',
     text='Symbolic execution of mk_component / mk_class / mk_*_association on a real BridgePoint model with ONE edit applied per path and a metamorphic oracle '
